@@ -69,6 +69,42 @@ pub fn show_tracker<'i, R: RuleType>(tracker: Tracker<'i, R>) -> String {
     format!("{}|{}", pos.pos(), parts.join(";"))
 }
 
+/// Observables of the rendered error report of a failing case (C10): the same entry is run a second
+/// time on a fresh stack and tracker (runs are deterministic; `show_tracker` consumed the first
+/// tracker), then `Tracker::collect()` — what `try_parse` / `try_check` return to the user.
+/// `msg` = hex of the `CustomError` message, `lc` = `line:col` of the error, `disp` = hex of
+/// `format!("{}", err)`; each is `panic` if computing it panics.
+fn fail_report<'i, I: Input<'i>, R: RuleType, N: ParsableTypedNode<'i, R> + Pairs<'i, R> + core::fmt::Debug>(
+    entry: &str,
+    input: I,
+) -> String {
+    use std::panic::{catch_unwind, AssertUnwindSafe};
+    let mut stack = Stack::new();
+    let mut tracker = Tracker::<'i, R>::new(input);
+    let failed = match entry {
+        "parse_partial" => N::try_parse_partial_with(input, &mut stack, &mut tracker).is_none(),
+        "check_partial" => N::try_check_partial_with(input, &mut stack, &mut tracker).is_none(),
+        "parse" => N::try_parse_with(input, &mut stack, &mut tracker).is_none(),
+        "check" => !N::try_check_with(input, &mut stack, &mut tracker),
+        _ => false,
+    };
+    if !failed {
+        return "\tmsg=nondet\tlc=nondet\tdisp=nondet".to_string();
+    }
+    match catch_unwind(AssertUnwindSafe(move || tracker.collect())) {
+        Err(_) => "\tmsg=panic\tlc=panic\tdisp=panic".to_string(),
+        Ok(err) => {
+            let msg = hex(&err.variant.message());
+            let lc = match &err.line_col {
+                pest_typed::error::LineColLocation::Pos((l, c)) => format!("{}:{}", l, c),
+                pest_typed::error::LineColLocation::Span((l, c), (l2, c2)) => format!("{}:{}-{}:{}", l, c, l2, c2),
+            };
+            let disp = catch_unwind(AssertUnwindSafe(|| format!("{}", err))).map(|s| hex(&s)).unwrap_or_else(|_| "panic".to_string());
+            format!("\tmsg={}\tlc={}\tdisp={}", msg, lc, disp)
+        }
+    }
+}
+
 fn run_with<'i, I: Input<'i>, R: RuleType, N: ParsableTypedNode<'i, R> + Pairs<'i, R> + core::fmt::Debug>(
     entry: &str,
     input: I,
@@ -85,11 +121,11 @@ fn run_with<'i, I: Input<'i>, R: RuleType, N: ParsableTypedNode<'i, R> + Pairs<'
                 show_tokens::<R, N>(&node),
                 hex(&format!("{:?}", node))
             ),
-            None => format!("v=fail\tstk={}\ttrk={}", show_stack(&stack), show_tracker(tracker)),
+            None => format!("v=fail\tstk={}\ttrk={}{}", show_stack(&stack), show_tracker(tracker), fail_report::<I, R, N>(entry, input)),
         },
         "check_partial" => match N::try_check_partial_with(input, &mut stack, &mut tracker) {
             Some(next) => format!("v=ok\tend={}\tstk={}\ttrk={}", next.byte_offset(), show_stack(&stack), show_tracker(tracker)),
-            None => format!("v=fail\tstk={}\ttrk={}", show_stack(&stack), show_tracker(tracker)),
+            None => format!("v=fail\tstk={}\ttrk={}{}", show_stack(&stack), show_tracker(tracker), fail_report::<I, R, N>(entry, input)),
         },
         "parse" => match N::try_parse_with(input, &mut stack, &mut tracker) {
             Some(node) => format!(
@@ -99,11 +135,11 @@ fn run_with<'i, I: Input<'i>, R: RuleType, N: ParsableTypedNode<'i, R> + Pairs<'
                 show_tokens::<R, N>(&node),
                 hex(&format!("{:?}", node))
             ),
-            None => format!("v=fail\tstk={}\ttrk={}", show_stack(&stack), show_tracker(tracker)),
+            None => format!("v=fail\tstk={}\ttrk={}{}", show_stack(&stack), show_tracker(tracker), fail_report::<I, R, N>(entry, input)),
         },
         "check" => match N::try_check_with(input, &mut stack, &mut tracker) {
             true => format!("v=ok\tstk={}\ttrk={}", show_stack(&stack), show_tracker(tracker)),
-            false => format!("v=fail\tstk={}\ttrk={}", show_stack(&stack), show_tracker(tracker)),
+            false => format!("v=fail\tstk={}\ttrk={}{}", show_stack(&stack), show_tracker(tracker), fail_report::<I, R, N>(entry, input)),
         },
         _ => "v=badentry".to_string(),
     }
